@@ -197,6 +197,15 @@ def run(ctx):
             got = [[Fraction(b2f(b)) for b in row] for row in im]
             if got != ref:
                 ref_bad = "result differs from the plain element-by-element formula on small integers"
+        if c["op"] in ("all_finite", "all_finite_and_nonzero") and not isinstance(im, tuple):
+            # the predicates have an exact meaning for every input: decide them from the bit patterns
+            xs = [int(b) for b in c.get(VNAMES[0], [])]
+            fin = all((b & 0x7FF0000000000000) != 0x7FF0000000000000 for b in xs)
+            nz = all((b & 0x7FFFFFFFFFFFFFFF) != 0 for b in xs)
+            want = fin if c["op"] == "all_finite" else (fin and nz)
+            if im != [[1 if want else 0]]:
+                ref_bad = "%s returned %s on an array for which the predicate is %s" % (c["op"], bool(im[0][0]), want)
+                ref = [[int(want)]]
         if isinstance(im, tuple):
             nbad += 1
             violation(ctx, "kernel %s panicked for n=%d: %s" % (c["op"], c["n"], im[1]), {"case": c}, found_input=True)
